@@ -8,7 +8,7 @@ def obs(a, b, r):
 
 
 def run(rep, ctx):
-    run_render(rep, ctx, 'c15', [('no-block-in-marker', obs)], n_quick=600, n_thorough=10000)
+    run_render(rep, ctx, 'c15', [('no-block-in-marker', obs)], n_quick=600, n_thorough=10000, small_caps=True)
 
 
 def replay(rep, data):
